@@ -186,7 +186,16 @@ Theorem C09_append_error : forall st axis k cap e t,
   e = InsufficientCapacity \/ ref_apply (OAppend axis k cap) t (t_shape t) = None.
 Proof. exact append_error. Qed.
 
-(* For EVERY operation of the correspondence model (all 18 kinds): if the model (exact
+(* the same for an owned tensor that was permuted in place (any memory order of the axes,
+   dense or with gaps, built by from_data on a Vec with spare capacity or by with_capacity +
+   append) before the second half is appended *)
+Theorem C09_append_permuted_denotes : forall st mode perm axis k cap rep st' t,
+  mdenote st = Some t -> apply_op false (OAppendP mode perm axis k cap rep) st = Ok st' ->
+  mdenote st' = Some t
+  /\ ref_apply (OAppendP mode perm axis k cap rep) t (result_shape st') = Some t.
+Proof. exact append_p_denotes. Qed.
+
+(* For EVERY operation of the correspondence model (all 19 kinds): if the model (exact
    arithmetic) succeeds on a state that denotes [t], the reference operation is defined on
    [t] and the new state denotes its result. *)
 Theorem C09_op_correct : forall o st st' t,
